@@ -44,6 +44,21 @@ def run(ctx):
         elif names != [RN(i) for i in range(1, R + 1)]:
             ctx.violation("realmp_output_not_exactly_once_in_order", real[-1])
         ctx.nontrivial.add(("realmp", R, B, C, delay))
+    # the real batch size (1000 records per worker): 2,100 records = two full batches and a remainder, with 2 and 3 cores;
+    # the second run reads them from a multi-block BGZF file > 1 MiB whose records start exactly on 64 KiB ... 1 MiB
+    for (R, C, bg) in [(2100, 2, False), (2100, 3, True)]:
+        rc, hung, names = real_mp_tier(ctx, R, 1000, C, None, None, bgzf_aligned=bg)
+        item = {"R": R, "B": 1000, "cores": C, "bgzf_aligned_input": bg, "rc": rc, "hung": hung, "written": len(names)}
+        real.append(item)
+        ctx.evaluations += 1
+        if hung:
+            ctx.violation("realmp_hang", item)
+        elif rc != 0:
+            ctx.violation("realmp_fails_without_fault", item)
+        elif names != [RN(i) for i in range(1, R + 1)]:
+            bad = [k for k in range(min(len(names), R)) if names[k] != RN(k + 1)][:3]
+            ctx.violation("realmp_output_not_exactly_once_in_order", dict(item, first_wrong_positions=bad))
+        ctx.nontrivial.add(("realmp", R, 1000, C, bg))
     ctx.notes["real_multiprocessing_runs"] = real
     ctx.exhaustive = True
     ctx.assumptions += [
